@@ -16,6 +16,9 @@ pub fn register(v: &mut Vec<(&'static str, crate::Harness)>) {
     v.push(("h_c03_tags", h_c03_tags));
     v.push(("h_c03_rejects", h_c03_rejects));
     v.push(("h_c03_total", h_c03_total));
+    v.push(("h_c03_bytes", h_c03_bytes));
+    v.push(("h_c02_bytes", h_c02_bytes));
+    v.push(("h_c17_spellings", h_c17_spellings));
     v.push(("h_c03_fragment_scope", h_c03_fragment_scope));
     v.push(("h_c03_charref_value", h_c03_charref_value));
     v.push(("h_c17_cdata_edges", h_c17_cdata_edges));
@@ -168,25 +171,47 @@ fn piece(k: usize, name: &'static str) -> String {
 
 pub fn h_c02_text() {
     let mut xot = Xot::new();
-    let k1 = sym::choose("k1", 7);
-    let k2 = sym::choose("k2", 7);
-    // k == 6: a CDATA section with one symbolic char
+    let k1 = sym::choose("k1", 9);
+    let k2 = sym::choose("k2", 9);
+    // k == 6 / 7: a CDATA section with one symbolic char / that char and LF (line ends are normalised there too, XML 1.0 2.11)
     let mut src = String::from("<a>");
     let mut want = String::new();
     // literal pieces that are adjacent in the source are decoded together (CR LF is one line end)
     let mut literal = String::new();
     for (k, nm) in [(k1, "c1"), (k2, "c2")] {
-        if k == 6 {
+        if k == 8 {
+            // an empty CDATA section: no character data
             want.push_str(&ref_decode(&literal, false).unwrap());
             literal.clear();
-            let s = sym::any_string(nm, 1);
+            src.push_str("<![CDATA[]]>");
+        } else if k >= 6 {
+            want.push_str(&ref_decode(&literal, false).unwrap());
+            literal.clear();
+            let mut s = sym::any_string(nm, 1);
             for c in s.chars() {
                 sym::assume(is_xml_char(c));
+            }
+            if k == 7 {
+                // the symbolic char followed by LF (CR LF inside the section is one line end)
+                s.push('\n');
             }
             src.push_str("<![CDATA[");
             src.push_str(&s);
             src.push_str("]]>");
-            want.push_str(&s);
+            // verbatim except for line ends
+            let cs: Vec<char> = s.chars().collect();
+            let mut i = 0;
+            while i < cs.len() {
+                if cs[i] == '\r' {
+                    if i + 1 < cs.len() && cs[i + 1] == '\n' {
+                        i += 1;
+                    }
+                    want.push('\n');
+                } else {
+                    want.push(cs[i]);
+                }
+                i += 1;
+            }
         } else {
             let p = piece(k, nm);
             literal.push_str(&p);
@@ -200,7 +225,11 @@ pub fn h_c02_text() {
         Ok(doc) => {
             let el = xot.document_element(doc).unwrap();
             let kids: Vec<Node> = xot.children(el).collect();
-            sym::check("adjacent-text-and-cdata-merged", kids.len() == 1 && xot.is_text(kids[0]));
+            if want.is_empty() {
+                sym::check("no-empty-text-node", kids.is_empty());
+            } else {
+                sym::check("adjacent-text-and-cdata-merged", kids.len() == 1 && xot.is_text(kids[0]));
+            }
             sym::check("text-is-what-the-spelling-denotes", xot.string_value(el) == want);
         }
         Err(_) => sym::check("well-formed-document-accepted", false),
@@ -380,8 +409,18 @@ fn ref_norm_id(v: &str) -> String {
 
 pub fn h_c02_xmlid() {
     let mut xot = Xot::new();
-    let n = sym::choose("len", sym::param("N", 3) + 1);
-    let v = sym::any_string("v", n);
+    // len <= N: the whole value is symbolic; len == N + 1: the template p??q?r (three symbolic chars), so that
+    // values with several separate internal runs of spaces are covered
+    let nmax = sym::param("N", 3);
+    let n = sym::choose("len", nmax + 2);
+    let v = if n <= nmax {
+        sym::any_string("v", n)
+    } else {
+        let w = sym::any_string("w", 3);
+        let mut it = w.chars();
+        let (w0, w1, w2) = (it.next().unwrap(), it.next().unwrap(), it.next().unwrap());
+        format!("p{}{}q{}r", w0, w1, w2)
+    };
     for c in v.chars() {
         sym::assume(is_xml_char(c) & (c != '<') & (c != '&') & (c != '"') & (c != '\t') & (c != '\n') & (c != '\r'));
     }
@@ -577,6 +616,106 @@ pub fn h_c03_total() {
     sym::cover("returned");
 }
 
+/// `parse_bytes` on every short ASCII byte string: returns (no panic edge) and agrees with `parse` of the
+/// same text.  xot::encoding + xhtmlchardet's BOM / length logic + encoding_rs label lookup are the real
+/// code; `Encoding::decode` is a stub (identity on ASCII - the harness assumes every byte < 0x80).
+pub fn h_c03_bytes() {
+    let mut xot = Xot::new();
+    let n = sym::choose("len", sym::param("NB", 4) + 1);
+    const NAMES: [&str; 6] = ["b0", "b1", "b2", "b3", "b4", "b5"];
+    let mut v: Vec<u8> = Vec::new();
+    let mut s = String::new();
+    for name in NAMES.iter().take(n) {
+        let b = sym::any_u8(name);
+        sym::assume(b < 0x80);
+        v.push(b);
+        s.push(b as char);
+    }
+    let r = xot.parse_bytes(&v);
+    sym::cover("returned");
+    let mut xot2 = Xot::new();
+    let r2 = xot2.parse(&s);
+    sym::check("parse-bytes-accepts-what-parse-accepts", r.is_ok() == r2.is_ok());
+    if let (Ok(d), Ok(d2)) = (r, r2) {
+        sym::check("parse-bytes-same-document", xot.to_string(d).ok() == xot2.to_string(d2).ok());
+        sym::cover("parsed");
+    }
+}
+
+/// windows-1252 (what encoding_rs uses for the labels iso-8859-1, us-ascii and windows-1252) of one byte
+fn ref_cp1252(b: u8) -> char {
+    const HI: [u32; 32] = [
+        0x20AC, 0x81, 0x201A, 0x0192, 0x201E, 0x2026, 0x2020, 0x2021, 0x02C6, 0x2030, 0x0160, 0x2039, 0x0152, 0x8D, 0x017D, 0x8F, 0x90, 0x2018, 0x2019, 0x201C,
+        0x201D, 0x2022, 0x2013, 0x2014, 0x02DC, 0x2122, 0x0161, 0x203A, 0x0153, 0x9D, 0x017E, 0x0178,
+    ];
+    if (0x80..0xA0).contains(&b) {
+        char::from_u32(HI[(b - 0x80) as usize]).unwrap()
+    } else {
+        b as char
+    }
+}
+
+/// `parse_bytes` honours the declared encoding: a document with an XML declaration naming one of 5 labels (or
+/// without declaration), whose text is one of 5 non-ASCII byte sequences followed by an arbitrary ASCII char,
+/// yields the text that the declared encoding denotes. xot::encoding, xhtmlchardet::detect and encoding_rs'
+/// label lookup are the real code; `Encoding::decode` is a value-level stub (ASCII identity, windows-1252 table,
+/// UTF-8 for concrete bytes).
+pub fn h_c02_bytes() {
+    let mut xot = Xot::new();
+    let label = sym::choose("label", 6);
+    let decl: &[u8] = match label {
+        0 => b"",
+        1 => b"<?xml version=\"1.0\" encoding=\"UTF-8\"?>",
+        2 => b"<?xml version=\"1.0\" encoding=\"ISO-8859-1\"?>",
+        3 => b"<?xml version='1.0' encoding='windows-1252'?>",
+        4 => b"<?xml version=\"1.0\" encoding=\"us-ascii\"?>",
+        _ => b"<?xml version=\"1.0\" encoding=\"iso-8859-1\" standalone=\"yes\"?>",
+    };
+    let utf8 = label <= 1;
+    let body = sym::choose("body", 5);
+    let hi: &[u8] = if utf8 {
+        match body {
+            0 => b"\xc3\xa9",
+            1 => b"\xe2\x82\xac",
+            2 => b"\xf0\x9f\x98\x80",
+            3 => b"\xc2\xa0",
+            _ => b"k",
+        }
+    } else {
+        match body {
+            0 => b"\xc3\xa9",
+            1 => b"\xe9",
+            2 => b"\x80",
+            3 => b"\xc2\xa3\x9f",
+            _ => b"k",
+        }
+    };
+    let c = sym::any_u8("c");
+    sym::assume((c < 0x80) & (c >= 0x20) & (c != b'<') & (c != b'&'));
+    let mut v: Vec<u8> = Vec::new();
+    v.extend_from_slice(decl);
+    v.extend_from_slice(b"<a>");
+    v.extend_from_slice(hi);
+    v.push(c);
+    v.extend_from_slice(b"</a>");
+    let mut want = String::new();
+    if utf8 {
+        want.push_str(std::str::from_utf8(hi).unwrap());
+    } else {
+        for b in hi {
+            want.push(ref_cp1252(*b));
+        }
+    }
+    want.push(c as char);
+    match xot.parse_bytes(&v) {
+        Ok(doc) => {
+            let el = xot.document_element(doc).unwrap();
+            sym::check("bytes-decoded-in-the-declared-encoding", xot.string_value(el) == want);
+        }
+        Err(_) => sym::check("well-formed-document-accepted", false),
+    }
+}
+
 // ---------------------------------------------------------------------------
 // C17: spans
 
@@ -646,6 +785,58 @@ pub fn h_c17_spans() {
         sym::check("empty-element-start-span", slice(SpanInfoKey::ElementStart(kids[4])).as_deref() == Some("b"));
         sym::check("empty-element-end-span", slice(SpanInfoKey::ElementEnd(kids[4])).as_deref() == Some("/>"));
         sym::check("decoded-slice-is-the-value", xot.text_str(kids[0]) == Some(t.as_str()));
+    }
+}
+
+/// spans of attribute values and text whose spelling is longer or shorter than the decoded value
+/// (entity, character reference, CR LF): the span covers the raw spelling, the node holds the decoded value
+pub fn h_c17_spellings() {
+    let mut xot = Xot::new();
+    const RAW: [&str; 5] = ["", "&amp;z", "&#x41;", "\r\nk", "&lt;&#10;"];
+    const DEC_ATTR: [&str; 5] = ["", "&z", "A", " k", "<\n"];
+    const DEC_TEXT: [&str; 5] = ["", "&z", "A", "\nk", "<\n"];
+    let sv = sym::choose("sv", 5);
+    let stx = sym::choose("st", 5);
+    let before = sym::choose("before", 2) == 1;
+    let one = |nm: &'static str| {
+        let s = sym::any_string(nm, 1);
+        for c in s.chars() {
+            sym::assume(is_xml_char(c) & (c != '<') & (c != '&') & (c != '"') & (c != ']') & (c != '\r') & (c != '\t') & (c != '\n'));
+        }
+        s
+    };
+    let (v, t) = (one("v"), one("t"));
+    let (raw_v, dec_v) = if before { (format!("{}{}", RAW[sv], v), format!("{}{}", DEC_ATTR[sv], v)) } else { (format!("{}{}", v, RAW[sv]), format!("{}{}", v, DEC_ATTR[sv])) };
+    let (raw_t, dec_t) = if before { (format!("{}{}", RAW[stx], t), format!("{}{}", DEC_TEXT[stx], t)) } else { (format!("{}{}", t, RAW[stx]), format!("{}{}", t, DEC_TEXT[stx])) };
+    let pad = ["", "\n"][sym::choose("pad", 2)];
+    let src = format!("{}<a w='1' x=\"{}\" y='2'>{}<b/>tail</a>", pad, raw_v, raw_t);
+    let fragment = sym::choose("fragment", 2) == 1;
+    let r = if fragment { xot.parse_fragment_with_span_info(&src) } else { xot.parse_with_span_info(&src) };
+    let (doc, si) = match r {
+        Ok(x) => x,
+        Err(_) => {
+            sym::check("well-formed-document-accepted", false);
+            return;
+        }
+    };
+    let slice = |k: SpanInfoKey| -> Option<String> {
+        si.get(k).and_then(|sp| if sp.start <= sp.end && sp.end <= src.len() { src.get(sp.range()).map(|s| s.to_string()) } else { None })
+    };
+    let el = xot.children(doc).find(|n| xot.is_element(*n)).unwrap();
+    let (w, x, y) = (xot.add_name("w"), xot.add_name("x"), xot.add_name("y"));
+    sym::check("attribute-value-span-is-the-raw-spelling", slice(SpanInfoKey::AttributeValue(el, x)) == Some(raw_v.clone()));
+    sym::check("attribute-value-decoded", xot.get_attribute(el, x) == Some(dec_v.as_str()));
+    sym::check("attribute-name-span", slice(SpanInfoKey::AttributeName(el, x)).as_deref() == Some("x"));
+    sym::check("next-attribute-value-span", slice(SpanInfoKey::AttributeValue(el, y)).as_deref() == Some("2"));
+    sym::check("previous-attribute-value-span", slice(SpanInfoKey::AttributeValue(el, w)).as_deref() == Some("1"));
+    let kids: Vec<Node> = xot.children(el).collect();
+    sym::check("child-count", kids.len() == 3);
+    if kids.len() == 3 {
+        sym::check("text-span-is-the-raw-spelling", slice(SpanInfoKey::Text(kids[0])) == Some(raw_t.clone()));
+        sym::check("text-decoded", xot.text_str(kids[0]) == Some(dec_t.as_str()));
+        sym::check("empty-element-end-span", slice(SpanInfoKey::ElementEnd(kids[1])).as_deref() == Some("/>"));
+        sym::check("tail-text-span", slice(SpanInfoKey::Text(kids[2])).as_deref() == Some("tail"));
+        sym::check("element-end-span", slice(SpanInfoKey::ElementEnd(el)).as_deref() == Some("</a>"));
     }
 }
 
@@ -756,9 +947,13 @@ pub fn h_c17_cdata_edges() {
     };
     let el = xot.children(doc).find(|n| xot.is_element(*n)).unwrap();
     let kids: Vec<Node> = xot.children(el).collect();
-    // an empty CDATA section alone makes an empty text node or none; everything else one text node
+    // an empty CDATA section alone denotes no character data: no (empty) text node; everything else one text node
+    if want_text.is_empty() {
+        sym::check("no-empty-text-node", kids.is_empty());
+        return;
+    }
     if kids.is_empty() {
-        sym::check("text-node-created", want_text.is_empty());
+        sym::check("text-node-created", false);
         return;
     }
     sym::check("one-merged-text-node", kids.len() == 1 && xot.text_str(kids[0]) == Some(want_text.as_str()));
@@ -766,7 +961,17 @@ pub fn h_c17_cdata_edges() {
         Some(sp) => {
             sym::check("text-span-inside-source", sp.start <= sp.end && sp.end <= src.len());
             if sp.start <= sp.end && sp.end <= src.len() {
-                sym::check("text-span-from-first-to-last-part", src.get(sp.range()) == Some(want_slice.as_str()));
+                // a leading empty CDATA section contributes no character: the property does not say whether it is a
+                // "merged part", so the run may start at it or after it (both slices decode to the node's value)
+                let got = src.get(sp.range());
+                // (a run that starts with a CDATA section starts at the section's content, as in the first template)
+                let alt = if e.is_empty() && want_slice.starts_with("]]>") {
+                    let rest = &want_slice[3..];
+                    Some(rest.strip_prefix("<![CDATA[").unwrap_or(rest))
+                } else {
+                    None
+                };
+                sym::check("text-span-from-first-to-last-part", got == Some(want_slice.as_str()) || (alt.is_some() && got == alt));
             }
         }
         None => sym::check("every-text-node-has-a-span", false),
